@@ -28,7 +28,7 @@ ASSUMPTIONS = [
 ]
 OPEN_STATEMENTS = [
     'lambda_norm: CLOSED for real symmetric inputs. lambda_norm_spec (Model of lambda_norm = sum of |c| over the non-identity strings of the Model of jordan_wigner(DiagonalCoulombHamiltonian), all real, image acts like the Spec operator), pauli_decomposition_unique (trace orthogonality: the Spec oracle jwOneNorm of any fermionic operator equals the sum of |c| of any canonical Pauli form acting like it) and lambda_norm_oracle (jwOneNorm n (const + sum T a+a + sum V nn) false = some (lambda_norm)) hold for every n; the only hypothesis is the exact-run flag jwDCHOk of the Model transform, evaluated by the driver (c19.spec.dch_pauli_norm) on every generated real Hamiltonian. Hermitian one_body with imaginary entries: correspondence + oracle only (the Model of lambda_norm takes real matrices).',
-    'one_norm_spec (get_one_norm_int(_woconst) = 1-norm of the Jordan-Wigner coefficients for eight-fold symmetric integrals): open as a theorem — pauli_decomposition_unique reduces it to reading off the coefficients of the Model image jwInteractionOp of the spin-orbital Hamiltonian (identity, Z, ZZ, hopping strings with and without an extra / missing Z, four-letter strings, with all index coincidences), which is not done. PROVED so far (one_norm_identity_coefficient, all integrals, no symmetry): the identity coefficient Tr(H)/4^n of the Spec operator molOp is htilde, and get_one_norm_int = |htilde| + get_one_norm_int_woconst, i.e. _woconst drops exactly the identity term (also evaluated by the driver: c19.spec.identity_coef, c19.spec.mol_op). The non-identity part is checked exactly by the Spec oracle jwOneNorm (Pauli decomposition from the Spec ladder action on all Fock states) for n_orb <= 2 (3 on a sample).',
+    'one_norm_spec (get_one_norm_int(_woconst) = 1-norm of the Jordan-Wigner coefficients for eight-fold symmetric integrals): open as a theorem — pauli_decomposition_unique reduces it to reading off the coefficients of the Model image jwInteractionOp of the spin-orbital Hamiltonian (identity, Z, ZZ, hopping strings with and without an extra / missing Z, four-letter strings, with all index coincidences), which is not done. PROVED: one_norm_spec_partial — for every n, real symmetric h and Coulomb-type two-body integrals (g_pqrs = 0 unless s = p and r = q, g_pqqp = g_qppq; contains g = 0) the Model of get_one_norm_int_woconst equals the Spec oracle jwOneNorm of molOp (hypothesis: exact-run flag of the Model transform, evaluated by the driver op c19.spec.mol_coulomb on every generated Coulomb-type case); MISSING: exchange-type g_pqpq and general three- / four-index integrals. Also proved (one_norm_identity_coefficient, all integrals, no symmetry): the identity coefficient Tr(H)/4^n of the Spec operator molOp is htilde, and get_one_norm_int = |htilde| + get_one_norm_int_woconst, i.e. _woconst drops exactly the identity term (also evaluated by the driver: c19.spec.identity_coef, c19.spec.mol_op). The non-identity part is checked exactly by the Spec oracle jwOneNorm (Pauli decomposition from the Spec ladder action on all Fock states) for n_orb <= 2 (3 on a sample).',
     'mu: the Model computes the least mu with eps*n*2^mu >= 1 and that minimality is a theorem (sub_bit_precision_spec); the implementation returns mu+1 for eps*n = 2^-k with k in {29, 31, 39, 47, 51, 55, 58, 59, 62} because math.log(x, 2) is inexact there (not a violation of the property; such inputs are not generated).',
     'cost functions: PROVED beyond total = step x iterations: cost_sparse has a positive per-step cost for all parameters and its total is monotone in lam and 1/dE (sparse_total_monotone); compute_cost: per-step cost independent of lam, dE and total monotone when the per-step cost is non-negative (thc_total_monotone); QR2 / QI2 minimise over ALL k1, k2 >= 1 for table sizes <= 2^16 (qr2_global_minimiser, qi2_global_minimiser; larger tables: searched grid only).',
     'compute_cost / cost_sparse: the number of rotation bits br (arg-min of an arccos/sin expression) and np.pi are outside the theorems (parameters / rational enclosure); the ancilla counts are covered by correspondence only. cost_estimator: no Model (irrational powers); oracle stream on its integer bookkeeping and grid minimality only.',
@@ -685,6 +685,20 @@ def stream_norms(ctx, of, lcu, gon):
                 orc_a.append(('Spec.C19.molOp differs from the operator constant + h a+a + 1/2 g a+a+aa built by the harness',
                               {'op': 'c19.spec.mol_op', 'const': fr(const), 'h': hj, 'g': gj}, molop_ok))
         b.add(case, fr(xa), {'op': 'c19.one_norm', 'const': fr(const), 'h': hj, 'g': gj, 'woconst': False}, orc_a)
+        if extra and extra.get('coulomb_type'):
+            # one_norm_spec_partial: hypothesis (exact run of the Model transform on the spin-orbital matrices) and the
+            # 1-norm of the Model image, for every size
+            def coul_ok(ans, xw=xw):
+                if not isinstance(ans, dict):
+                    return False
+                if ans.get('ok') is not True:
+                    s.count('get_one_norm:coulomb-type:jw-model-run-not-exact')
+                    return True
+                return Fraction(ans['norm'][0], ans['norm'][1]) == xw
+            s.count('get_one_norm:coulomb-type')
+            orc_w.append(('get_one_norm_int_woconst differs from the 1-norm of the non-identity strings of the Model '
+                          'Jordan-Wigner image of the spin-orbital Hamiltonian (one_norm_spec_partial)',
+                          {'op': 'c19.spec.mol_coulomb', 'const': fr(const), 'h': hj, 'g': gj}, coul_ok))
         b.add(dict(case, fn='get_one_norm_int_woconst'), fr(xw), {'op': 'c19.one_norm', 'h': hj, 'g': gj, 'woconst': True}, orc_w)
     for _ in range(budget(t, 200, 1000)):
         n = rng.choice([1, 2, 2, 2, 3, 3, budget(t, 4, 5)])
@@ -697,7 +711,16 @@ def stream_norms(ctx, of, lcu, gon):
         if not ints and kind_h == 'float64' and kind_g == 'float64' and rng.random() < 0.4:
             vals = small_vals(vals)
         symmetric = rng.random() < 0.8
-        if symmetric:
+        coulomb = symmetric and rng.random() < 0.3
+        if coulomb:
+            # Coulomb-type ("density-density") integrals: g[p, q, q, p] = J[p, q] symmetric, every other entry 0
+            # (the class of one_norm_spec_partial; contains g = 0)
+            h, J = sym_matrix(rng, n, vals), sym_matrix(rng, n, vals if rng.random() < 0.8 else [0])
+            g = numpy.zeros((n,) * 4)
+            for p_ in range(n):
+                for q_ in range(n):
+                    g[p_, q_, q_, p_] = J[p_, q_]
+        elif symmetric:
             h, g = sym_matrix(rng, n, vals), sym8_tensor(rng, n, vals)
         else:
             # (A) arbitrary real tensors (no symmetry): Model only (the function is then not the 1-norm of an operator)
@@ -711,7 +734,7 @@ def stream_norms(ctx, of, lcu, gon):
             import types
             mol = types.SimpleNamespace(nuclear_repulsion=const, one_body_integrals=as_dtype(rng, h, kind_h),
                                         two_body_integrals=as_dtype(rng, g, kind_g))
-        query_one_norm(const, h, g, kind_h, kind_g, via, symmetric, mol=mol)
+        query_one_norm(const, h, g, kind_h, kind_g, via, symmetric, {'coulomb_type': True} if coulomb else None, mol=mol)
         if mol is not None and kind_h == 'float64' and kind_g == 'float64' and rng.random() < 0.5:
             # the same object edited in place is answered according to its new content
             p_ = rng.randrange(n)
